@@ -11,6 +11,7 @@ spec("REP", "t:SymbolTables", "bool",
      macro=True)
 
 contract(M + "SymbolTables.clear",
+    str_axioms=["case_idempotent"],
     types=dict(self="SymbolTables"),
     modifies=["self._symbol_tables", "self._current_scope", "scope_stack"],
     ghost_update={"scope_stack": "[]"},
@@ -24,6 +25,7 @@ contract(M + "SymbolTables.clear",
 )
 
 contract(M + "SymbolTable.__init__",
+    str_axioms=["case_idempotent"],
     types=dict(self="SymbolTable", name="str", parent="ref:SymbolTable?", checking_enabled="bool", node="any"),
     modifies=["self._name", "self._data_symbols", "self._modules", "self._parent", "self._node", "self._checking_enabled", "self._children"],
     ensures={
@@ -37,6 +39,7 @@ contract(M + "SymbolTable.__init__",
 )
 
 contract(M + "SymbolTable.add_child",
+    str_axioms=["case_idempotent"],
     types=dict(self="SymbolTable", child="ref:SymbolTable"),
     modifies=["self._children"],
     ensures={"appended": "self._children == old(self._children) + [child]"},
@@ -45,6 +48,7 @@ contract(M + "SymbolTable.add_child",
 )
 
 contract(M + "SymbolTables.add",
+    str_axioms=["case_idempotent"],
     types=dict(self="SymbolTables", name="str", node="any"),
     returns="ref:SymbolTable",
     modifies=["self._symbol_tables", "*._name", "*._data_symbols", "*._modules", "*._parent", "*._node", "*._checking_enabled", "*._children"],
@@ -62,6 +66,7 @@ contract(M + "SymbolTables.add",
 )
 
 contract(M + "SymbolTables.lookup",
+    str_axioms=["case_idempotent"],
     types=dict(self="SymbolTables", name="str"),
     returns="ref:SymbolTable",
     ensures={"found": "name.lower() in self._symbol_tables and result == self._symbol_tables[name.lower()]"},
@@ -70,6 +75,7 @@ contract(M + "SymbolTables.lookup",
 )
 
 contract(M + "SymbolTables.enter_scope",
+    str_axioms=["case_idempotent"],
     types=dict(self="SymbolTables", name="str", node="any"),
     requires={"rep": "REP(self)"},
     modifies=["self._symbol_tables", "self._current_scope", "scope_stack",
@@ -100,6 +106,7 @@ contract(M + "SymbolTables.enter_scope",
 )
 
 contract(M + "SymbolTables.exit_scope",
+    str_axioms=["case_idempotent"],
     types=dict(self="SymbolTables"),
     requires={"rep": "REP(self)"},
     modifies=["self._current_scope", "scope_stack"],
@@ -110,5 +117,57 @@ contract(M + "SymbolTables.exit_scope",
         "to_parent": "self._current_scope == old(self._current_scope)._parent",
     },
     raises={"SymbolTableError": {"was_empty": "len(scope_stack) == 0 and scope_stack == old(scope_stack) and self._current_scope is None"}},
+    serves=["C09", "C16"],
+)
+
+# index of the first table called n in xs at or after position i (-1: none)
+spec("first_named", "xs:list[ref], n:str, i:int", "int",
+     "-1 if (i >= len(xs) or i < 0) else (i if xs[i]._name == n else first_named(xs, n, i + 1))",
+     rec=True, heap=["_name"])
+
+contract(M + "SymbolTable.del_child",
+    str_axioms=["case_idempotent"],
+    types=dict(self="SymbolTable", name="str"),
+    modifies=["self._children"],
+    locals=dict(),
+    ensures={
+        "found": "first_named(old(self._children), name.lower(), 0) >= 0",
+        "first_match_removed": "self._children == old(self._children)[:first_named(old(self._children), name.lower(), 0)] "
+                               "+ old(self._children)[first_named(old(self._children), name.lower(), 0) + 1:]",
+    },
+    raises={"KeyError": {"none_named": "first_named(self._children, name.lower(), 0) == -1", "unchanged": "self._children == old(self._children)"}},
+    loops={0: dict(invariant={"none_before": "first_named(self._children, lname, 0) == first_named(self._children, lname, _k0)",
+                              "none_before_all": "all(self._children[i]._name != lname for i in range(0, _k0))",
+                              "untouched": "self._children == old(self._children) and lname == name.lower()"})},
+    serves=["C09", "C16"],
+)
+
+contract(M + "SymbolTable.root", prop=True,
+    str_axioms=["case_idempotent"],
+    types=dict(self="SymbolTable"), returns="ref:SymbolTable",
+    ensures={"is_a_root": "result._parent is None"},
+    raises=[],
+    loops={0: dict(invariant={"t": "True"}, types={"current": "ref:SymbolTable"})},
+    serves=["C16"],
+)
+
+contract(M + "SymbolTables.remove",
+    str_axioms=["case_idempotent"],
+    types=dict(self="SymbolTables", name="str"),
+    requires={"rep": "REP(self)"},
+    modifies=["self._symbol_tables", "*._children"],
+    ensures={
+        "scope_kept": "self._current_scope == old(self._current_scope) and scope_stack == old(scope_stack)",
+        "child_of_current_first": "implies(self._current_scope is not None and first_named(old(self._current_scope._children), name.lower(), 0) >= 0, "
+              "self._symbol_tables == old(self._symbol_tables) and self._current_scope._children == "
+              "old(self._current_scope._children)[:first_named(old(self._current_scope._children), name.lower(), 0)] + "
+              "old(self._current_scope._children)[first_named(old(self._current_scope._children), name.lower(), 0) + 1:])",
+        "else_top_level": "implies(self._current_scope is None or first_named(old(self._current_scope._children), name.lower(), 0) == -1, "
+              "name.lower() in old(self._symbol_tables) and name.lower() not in self._symbol_tables "
+              "and dict_same_except(self._symbol_tables, old(self._symbol_tables), name.lower()))",
+        "frame": "unchanged_except('_children', self._current_scope)",
+    },
+    raises={"SymbolTableError": {"unchanged": "self._symbol_tables == old(self._symbol_tables) and self._current_scope == old(self._current_scope) and scope_stack == old(scope_stack)",
+                                 "children_kept": "unchanged_except('_children', None)"}},
     serves=["C09", "C16"],
 )
